@@ -29,7 +29,7 @@ def materialise(pool, names, d):
     return out
 
 
-def invoke(d, files, p, fix, extra=(), stdin_text=None, cfg=None):
+def invoke(d, files, p, fix, extra=(), stdin_text=None, cfg=None, fix_only=None):
     taskdir = os.path.join(d, "tasks")
     os.makedirs(taskdir, exist_ok=True)
     env = dict(os.environ)
@@ -39,6 +39,11 @@ def invoke(d, files, p, fix, extra=(), stdin_text=None, cfg=None):
         args += ["-f"] + files
     if cfg is not None:
         args += ["-c", cfg]
+    if fix_only is not None:
+        fo = os.path.join(d, "fix_only.json")
+        with open(fo, "w") as f:
+            json.dump(fix_only, f)
+        args += ["--fix_only", fo]
     args += ["-p", str(p), "--json", os.path.join(d, "o.json"), "--junit", os.path.join(d, "o.xml")] + (["--fix"] if fix else []) + list(extra)
     pr = subprocess.run(args, stdout=subprocess.PIPE, stderr=subprocess.PIPE, env=env, cwd=d, timeout=900, input=(stdin_text.encode() if stdin_text is not None else None))
     tasks = []
@@ -80,18 +85,24 @@ def body(path):
         return ""
 
 
-def perfile_config(d, names, bad):
+def perfile_config(d, names, bad, main_rule=None, perfile=None):
     """a configuration whose file_list names the files (command-line order); the ones in `bad` carry a per-file section that
-    names a rule which does not exist (a ConfigurationError for that file only)"""
-    lines = ["file_list:"]
+    names a rule which does not exist (a ConfigurationError for that file only); `perfile`: {name: rule section} per-file
+    settings of existing rules; `main_rule`: the main rule section"""
+    fl = []
     for nm in names:
-        if nm in bad:
-            lines += ["  - %s:" % nm, "      rule:", "        no_such_rule_001:", "          disable: true"]
-        else:
-            lines.append("  - %s" % nm)
-    p = os.path.join(d, "perfile.yaml")
+        sec = {}
+        if nm in (bad or []):
+            sec["no_such_rule_001"] = {"disable": True}
+        if perfile and nm in perfile:
+            sec.update(perfile[nm])
+        fl.append({nm: {"rule": sec}} if sec else nm)
+    cfg = {"file_list": fl}
+    if main_rule:
+        cfg["rule"] = main_rule
+    p = os.path.join(d, "perfile.json")
     with open(p, "w") as f:
-        f.write("\n".join(lines) + "\n")
+        json.dump(cfg, f, indent=1)
     return p
 
 
@@ -111,14 +122,15 @@ def main():
 
     solo_abs = {}
 
-    def solo_result(name, fix, bad=False, percfg=False):
-        k = (name, fix, bad, percfg)
+    def solo_result(name, fix, bad=False, percfg=False, sc=None):
+        sc = sc or {}
+        k = (name, fix, bad, percfg, json.dumps([sc.get("main_rule"), (sc.get("perfile") or {}).get(name), sc.get("fix_only")], sort_keys=True))
         if k not in solo:
-            d = os.path.join(work, "solo_%s_%d%d%d" % (re.sub(r"\W", "_", name), int(fix), int(bad), int(percfg)))
+            d = os.path.join(work, "solo_%s_%d%d%d_%d" % (re.sub(r"\W", "_", name), int(fix), int(bad), int(percfg), len(solo)))
             shutil.rmtree(d, ignore_errors=True)
             os.makedirs(d)
             files = materialise(pool, [name], d)
-            r = invoke(d, files, 1, fix, cfg=(perfile_config(d, [name], [name] if bad else []) if percfg else None))
+            r = invoke(d, files, 1, fix, cfg=(perfile_config(d, [name], [name] if bad else [], sc.get("main_rule"), sc.get("perfile")) if percfg else None), fix_only=sc.get("fix_only"))
             solo[k] = r["tasks"][0]["result"] if r["tasks"] else "no-task"
             t = r["tasks"][0] if r["tasks"] else {"status": True, "stop": True, "wrote": False, "bodyAfter": ""}
             cls = "cfgerr" if t["stop"] else ("rejected" if "Error while processing" in r["stderr"] else "ok")
@@ -151,15 +163,17 @@ def main():
         else:
             bad = sc.get("bad")
             orig_body = [body(f) for f in files]
-            r = invoke(d, files, sc["p"], sc["fix"], cfg=(perfile_config(d, [os.path.basename(f) for f in files], bad) if bad is not None else None))
+            r = invoke(d, files, sc["p"], sc["fix"], cfg=(perfile_config(d, [os.path.basename(f) for f in files], bad, sc.get("main_rule"), sc.get("perfile")) if bad is not None else None),
+                       fix_only=sc.get("fix_only"))
             tb = "Traceback (most recent call last)" in (r["stderr"] + r["stdout"])
         names = [os.path.basename(f) for f in files]
         if not sc.get("stdin"):
             # the record for spec/MainTrace.tla: per-process event sequences, print order, artefacts, disk
             bad = sc.get("bad")
             for nm in sorted(set(names)):
-                solo_result(nm, sc["fix"], bad=(bad is not None and nm in bad), percfg=bad is not None)
-            absf = [solo_abs[(nm, sc["fix"], bad is not None and nm in bad, bad is not None)] for nm in names]
+                solo_result(nm, sc["fix"], bad=(bad is not None and nm in bad), percfg=bad is not None, sc=sc)
+            skey = lambda nm: (nm, sc["fix"], bad is not None and nm in bad, bad is not None, json.dumps([sc.get("main_rule"), (sc.get("perfile") or {}).get(nm), sc.get("fix_only")], sort_keys=True))
+            absf = [solo_abs[skey(nm)] for nm in names]
             idx = dict((nm, i + 1) for i, nm in enumerate(names))
             procs = []
             for evs in r["procs"]:
@@ -175,14 +189,14 @@ def main():
             mrecs.append({"id": nid + 1, "jobs": sc["p"], "fix": bool(sc["fix"]), "files": [{"cls": a["cls"], "err": a["err"], "dirty": a["dirty"]} for a in absf],
                           "procs": procs, "out": out, "err": err, "exit": 1 if r["rc"] else 0,
                           "junit": [idx.get(x, 0) for x in (r["arte"]["junit"] or [])], "json": [idx.get(x, 0) for x in (r["arte"]["json"] or [])],
-                          "disk": disk, "names": names, "bad": bad or [], "percfg": bad is not None, "traceback": tb, "stderr_tail": r["stderr"][-300:]})
+                          "disk": disk, "names": names, "bad": bad or [], "percfg": bad is not None, "kind": sc.get("kind", ""), "traceback": tb, "stderr_tail": r["stderr"][-300:]})
         nid += 1
         tasks = [{"pid": t["pid"], "seq": t["seq"], "index": t["index"], "file": t["file"], "leakBefore": t["leakBefore"], "leakAfter": t["leakAfter"], "result": t["result"], "status": t["status"]}
                  for t in r["tasks"]]
         stopped = "ERROR: Invalid configuration" in r["stderr"] or len(tasks) < len(names)
         recs.append({"id": nid, "files": names, "p": sc["p"], "fix": sc["fix"], "stdin": bool(sc.get("stdin")), "tasks": tasks, "leak0": tasks[0]["leakBefore"] if tasks else "",
-                     "solo": [[n, solo_result(n, sc["fix"], bad=(bad is not None and n in bad), percfg=bad is not None)] for n in sorted(set(names))], "printed": printed_order(r["stdout"]), "exit": 1 if r["rc"] else 0, "stopped": stopped,
-                     "stdinOk": stdin_ok, "traceback": tb, "pids": len(set(t["pid"] for t in tasks)), "stderr_tail": r["stderr"][-300:]})
+                     "solo": [[n, solo_result(n, sc["fix"], bad=(bad is not None and n in bad), percfg=bad is not None, sc=sc)] for n in sorted(set(names))], "printed": printed_order(r["stdout"]), "exit": 1 if r["rc"] else 0, "stopped": stopped,
+                     "kind": sc.get("kind", ""), "stdinOk": stdin_ok, "traceback": tb, "pids": len(set(t["pid"] for t in tasks)), "stderr_tail": r["stderr"][-300:]})
         shutil.rmtree(d, ignore_errors=True)
     with open(job["out"], "w") as f:
         json.dump({"recs": recs}, f, separators=(",", ":"))
